@@ -507,18 +507,19 @@ class NativeParser(Parser):
         """
         for index, line in enumerate(s_dict.line_content):
             # if it is a line comment or just a "http://"?
-            if re.search(r"(?<!:)/{2}.*$", line):
-                # if re.search(r'/{2}.*$', line):
+            # Search for only the FIRST occurrence of '//' in the line.
+            # From there, consider all chars until line ending as ONE comment.
+            match = re.search(r"(?<!:)/{2}.*$", line)
+            if match:
                 key = self.counter()
-                # Search for only the FIRST occurrence of '//' in the line.
-                # From there, consider all chars until line ending as ONE comment.
-                line_comment = re.findall(r"(?<!:)/{2}.*$", line)[0]
+                line_comment = match.group(0)
                 s_dict.line_comments.update({key: line_comment})
                 placeholder = f"LINECOMMENT{key:06d}"
                 if not comments:
                     placeholder = ""
-                # Replace line comment with placeholder
-                s_dict.line_content[index] = s_dict.line_content[index].replace(line_comment, placeholder)
+                # Replace the line comment with the placeholder, where it was found
+                # (the comment's text may occur earlier in the line as well, e.g. a bare `//` after a URL)
+                s_dict.line_content[index] = line[: match.start()] + placeholder + line[match.end() :]
 
         return
 
